@@ -193,6 +193,12 @@ func checkC13(c *Ctx) {
 	ruleRegisterBeforeFlush(c, "C13.k")
 	c.rule("C13.l", "a reference loaded from a guarded map/slice field of Client is used only while the mutex is held", 3)
 	ruleGuardedRefEscapes(c, "C13.l", la, guards, "imapclient")
+	c.rule("C13.m", "closeWithError closes the connection, takes the whole pending list and completes each command on every path", 2)
+	if cwe13, cc13 := p.Func("imapclient", "Client", "closeWithError"), p.Func("imapclient", "Client", "completeCommand"); cwe13 != nil && cc13 != nil {
+		ruleTeardownTakesAll(c, "C13.m", cwe13, cc13)
+	} else {
+		c.unresolvedRoot("(*Client).closeWithError / completeCommand")
+	}
 	rulePublication(c, "C13.b", la, guards, clientGuard)
 	ruleCommandEncoderPairing(c, "C13.c")
 	ruleCompletionPairing(c, "C13.d", la, clientGuard)
